@@ -1,0 +1,11 @@
+//go:build !verif
+
+package keeper
+
+import (
+	sdk "github.com/cosmos/cosmos-sdk/types"
+
+	packettypes "github.com/bianjieai/tibc-go/modules/tibc/core/04-packet/types"
+)
+
+func (m msgServer) verifCallback(sdk.Context, string, packettypes.Packet, []byte, error) {}
